@@ -64,6 +64,10 @@ def match_known(known, rep):
         if k["matcher"] == "three_digit_ring_number_in_output":
             if _three_digit_ring_number(rep):
                 return k
+        if k["matcher"] == "string_decode_raises_recursion_error":
+            got = rep.get("violation", {}).get("detail", {}).get("got")
+            if isinstance(got, (list, tuple)) and list(got[:2]) == ["err", "RecursionError"]:
+                return k
     return None
 
 
@@ -84,7 +88,7 @@ def _three_digit_ring_number(rep):
 def peel_ids(known_entry, rep):
     """Which ops of the full history to drop after a known finding was matched, so that the rest of the
     run can still be judged."""
-    if known_entry["matcher"] == "three_digit_ring_number_in_output":
+    if known_entry["matcher"] in ("three_digit_ring_number_in_output", "string_decode_raises_recursion_error"):
         return {rep["ops"][-1]["id"]}          # the alpha_decode op that generated the string
     return {op["id"] for op in rep["ops"] if op["op"] == "mutate"}
 
